@@ -814,3 +814,19 @@ MUTANTS += [
     B("c16-excel-export-reads-a-missing-field", ["C16"], XL,
       "        for task_name, task_start, task_end in ress.assignments:", "        for task_name, task_start, task_end in ress.assignements:"),
 ]
+
+_POLY_OLD = ("            for i in range(len(self.coefficients) - 2, -1, -1):\n                if self.coefficients[i] != 0:\n"
+             "                    result += self.coefficients[i] * v\n                v = v * x\n")
+
+
+def _poly_slice(sl):
+    return (f"            for coefficient in self.coefficients[{sl}]:\n                if coefficient != 0:\n"
+            "                    result += coefficient * v\n                v = v * x\n")
+
+
+MUTANTS += [
+    # ---- walking the coefficients backwards through a slice (reversed slices are index ranges) ----
+    T("c08-twin-polynomial-over-a-reversed-slice", ["C08"], FN, _POLY_OLD, _poly_slice("-2::-1")),
+    B("c08-polynomial-reversed-slice-takes-the-constant-twice", ["C08"], FN, _POLY_OLD, _poly_slice("::-1")),
+    B("c08-polynomial-reversed-slice-stops-before-the-leading-term", ["C08"], FN, _POLY_OLD, _poly_slice("-2:0:-1")),
+]
